@@ -280,4 +280,167 @@ theorem impl_eq_spec_partial {z : Zone} {o : LName} {q : Query}
     have hanc : isAncestorOrSelf o q.name = false := anc_false_iff.2 hin
     simp [answerImpl, answerSpec, hzo, hanc, conformsModAA]
 
+
+/-! ### the AA bit -/
+
+/-- `build_authoritative_response` sets AA on every response for a name in the zone -/
+theorem impl_aa_true {z : Zone} {o : LName} {q : Query} (hin : zoneOf o q.name = true) :
+    (answerImpl z o q).aa = true := by
+  unfold answerImpl buildAuthoritative
+  simp only [hin, if_true]
+  split
+  · rfl
+  · rfl
+  · split <;> rfl
+
+theorem resolve_not_referral_of_noCut {z : Zone} {o n : LName} {t : Nat} (h : cuts z o n t = [])
+    (ns : RRset) : resolve z o n t ≠ .referral ns := by
+  intro hr
+  exact resolve_referral_cuts hr h
+
+/-- the specification sets AA unless the answer is a plain referral -/
+theorem spec_aa_true_of_noCut {z : Zone} {o : LName} {q : Query} {d : Nat}
+    (hin : isAncestorOrSelf o q.name = true) (hany : anyNotAtOwner z q = false)
+    (hnc : cuts z o q.name (effType z q) = []) :
+    (answerSpec (d + 1) z o q).aa = true := by
+  have hty := specType_eq hany
+  unfold answerSpec
+  simp only [hin, Bool.not_true, Bool.false_eq_true, if_false, hty]
+  generalize effType z q = t at *
+  cases hres : resolve z o q.name t with
+  | referral ns => exact absurd hres (resolve_not_referral_of_noCut hnc ns)
+  | data rr => simp [chase, hres]
+  | noData => simp [chase, hres]
+  | nxDomain => simp [chase, hres]
+  | cname rr tg =>
+    rw [chase_cname_step hres]
+    by_cases hs : (!isAncestorOrSelf o tg || [q.name].contains tg || d == 0) = true
+    · rw [if_pos hs]
+    · rw [if_neg hs]
+      generalize (chase z o t d (tg :: [q.name]) tg).2 = fin
+      cases fin <;> rfl
+
+/--
+**AA bit**: with no zone cut at or above the query name (`referralAA` false) the AA bit is the
+prescribed one, so together with `impl_eq_spec_partial` the whole answer `conforms`.  On a
+referral the code sets AA where the algorithm clears it (`witness_referral_aa`).
+-/
+theorem aa_correct_partial {z : Zone} {o : LName} {q : Query}
+    (hany : anyNotAtOwner z q = false) (href : referralAA z o q = false) :
+    (answerImpl z o q).aa = (answerSpec MAX_CNAME_DEPTH z o q).aa := by
+  by_cases hin : zoneOf o q.name = true
+  · have hanc : isAncestorOrSelf o q.name = true := hin
+    have hnc : cuts z o q.name (effType z q) = [] := by
+      simp only [referralAA, hanc, Bool.true_and, Bool.not_eq_false', noCut] at href
+      cases hc : cuts z o q.name (effType z q) with
+      | nil => rfl
+      | cons _ _ => rw [hc] at href; simp at href
+    rw [impl_aa_true hin]
+    exact (spec_aa_true_of_noCut (d := MAX_CNAME_DEPTH - 1) hanc hany hnc).symm
+  · have hzo : zoneOf o q.name = false := by
+      cases h : zoneOf o q.name <;> simp_all
+    have hanc : isAncestorOrSelf o q.name = false := hzo
+    simp [answerImpl, answerSpec, hzo, hanc]
+
+/-! ### negative answers carry the SOA -/
+
+theorem lookupAnswers_ok_nonempty {z : Zone} {o n : LName} {t t' : Nat} {a : List RRset}
+    {term : Option RRset} (h : lookupAnswers z o n t = .ok (t', a, term)) : a ≠ [] := by
+  unfold lookupAnswers at h
+  dsimp only at h
+  cases hil : innerLookup z n (if (t == T_ANY) = true then replaceAny z n else t) with
+  | none => rw [hil] at h; cases h
+  | some a0 =>
+    rw [hil] at h
+    dsimp only at h
+    by_cases hc : (a0.type == T_CNAME && (if (t == T_ANY) = true then replaceAny z n else t) != T_CNAME) = true
+    · rw [if_pos hc] at h; cases h; simp [chaseCnames]
+    · rw [if_neg hc] at h; cases h; simp
+
+/-- a response of the model is *negative* when it is NXDOMAIN, or NOERROR with an empty answer
+section and no NS RRset in the authority section (i.e. not a referral) -/
+def isNegative (a : Answer) : Prop :=
+  a.rcode = .nxDomain ∨ (a.rcode = .noError ∧ a.answers = [] ∧ ∀ r ∈ a.authority, r.type ≠ T_NS)
+
+/--
+**Every negative answer (NXDOMAIN or NODATA) carries exactly the apex SOA RRset in the authority
+section** — for every well-formed zone and every query (no further hypothesis).
+-/
+theorem negative_has_soa {z : Zone} {o : LName} {q : Query} (hwf : zoneWF z o = true)
+    {s : RRset} (hs : getRR z o T_SOA = some s) (hneg : isNegative (answerImpl z o q)) :
+    (answerImpl z o q).authority = [s] := by
+  have wf := wf_of_zoneWF hwf
+  have hsoaL := soa_lookup wf hs
+  unfold isNegative answerImpl at *
+  by_cases hin : zoneOf o q.name = true
+  · simp only [hin, if_true] at hneg ⊢
+    unfold buildAuthoritative at hneg ⊢
+    cases hla : lookupAnswers z o q.name q.type with
+    | error e =>
+      cases e with
+      | refused => simp [hla] at hneg
+      | nameExists => simp [hla, hsoaL]
+      | nxDomain => simp [hla, hsoaL]
+    | ok p =>
+      obtain ⟨t', a, term⟩ := p
+      have hne := lookupAnswers_ok_nonempty hla
+      simp only [hla] at hneg ⊢
+      by_cases hr : isReferral a q.type = true
+      · exfalso
+        simp only [hr, if_true] at hneg
+        cases a with
+        | nil => exact hne rfl
+        | cons r rest =>
+          have hrt : r.type = T_NS := by
+            simp only [isReferral, Bool.and_eq_true, beq_iff_eq] at hr
+            exact hr.1.1
+          rcases hneg with h | ⟨_, _, h⟩
+          · cases h
+          · exact h r (by simp) hrt
+      · exfalso
+        have hr' : isReferral a q.type = false := by
+          cases h : isReferral a q.type <;> simp_all
+        simp only [hr', Bool.false_eq_true, if_false] at hneg
+        rcases hneg with h | ⟨_, h, _⟩
+        · cases h
+        · exact hne h
+  · have hzo : zoneOf o q.name = false := by
+      cases h : zoneOf o q.name <;> simp_all
+    simp [hzo] at hneg
+
+/-! ### CNAME chasing terminates within the code's bound -/
+
+theorem chaseFrom_length_le (z : Zone) (t : Nat) :
+    ∀ (k : Nat) (seen : List LName) (last : RRset), (chaseFrom z t k seen last).length ≤ k := by
+  intro k
+  induction k with
+  | zero => intro _ _; simp [chaseFrom]
+  | succ k ih =>
+    intro seen last
+    unfold chaseFrom
+    split
+    · simp
+    · split
+      · simp
+      · split
+        · simp
+        · split
+          · simp
+          · split
+            · split
+              · simp only [List.length_cons]
+                exact Nat.succ_le_succ (ih _ _)
+              · simp
+            · simp
+
+/-- **`chase_cnames` never returns more than `MAX_CNAME_DEPTH` RRsets** (loops included): the
+recursion is on the code's own depth counter, so it terminates for every zone. -/
+theorem chase_bounded (z : Zone) (name : LName) (first : RRset) (t : Nat) :
+    (chaseCnames z name first t).length ≤ MAX_CNAME_DEPTH := by
+  unfold chaseCnames
+  have := chaseFrom_length_le z t (MAX_CNAME_DEPTH - 1) [name] first
+  simp only [List.length_cons]
+  have h : MAX_CNAME_DEPTH - 1 + 1 = MAX_CNAME_DEPTH := by decide
+  omega
+
 end HickoryVerif.C10
